@@ -53,7 +53,8 @@ def strategy():
         identval = draw(gen.text_bytes(0, 40))
         exact_limit = draw(st.booleans())
         real = draw(st.sampled_from([False] * 3 + [True])) and n < 100000
-        return {"out": out, "stdio": stdio, "n": n, "body": body, "shape": shape, "chain": chain, "errlog": errlog,
+        repeat = draw(st.sampled_from([1, 1, 2, 3]))
+        return {"repeat": repeat, "out": out, "stdio": stdio, "n": n, "body": body, "shape": shape, "chain": chain, "errlog": errlog,
                 "fac": fac, "lvl": lvl, "ident": ident, "identval": identval, "exact_limit": exact_limit, "real": real}
     return case()
 
@@ -61,10 +62,10 @@ def strategy():
 CHAINS = {"none": None, "pass": b"noop", "drop": b"only_uid:4242", "pass2": b"only_root;exclude_uid:5", "dropmid": b"noop;exclude_uid:0;only_root"}
 
 
-def plan(c, out):
+def plan(c, out, trim=0):
     """-> dict(ini, environ, path, argv, message, dropped)"""
     o = out.encode()
-    body = c["body"]
+    body = c["body"][:len(c["body"]) - trim] if trim else c["body"]
     environ = [b"I=" + c["identval"], b"Z=1"]
     path, argv = (drv.ARGDUMP.encode() if c["real"] else b"/bin/prog"), [b"prog", b"arg"]
     sh = c["shape"]
@@ -87,6 +88,8 @@ def plan(c, out):
         fmt = b"%{noop}"
     fctx = model.FormatCtx(path, argv, environ)
     message = model.render(model.expand_pieces(fmt, fctx))
+    if len(message) > 1048575 and not trim:
+        return plan(c, out, trim=len(message) - 1048575)    # the configurable maximum caps the message
     L = max(255, len(message)) if c["exact_limit"] else min(1048575, max(255, len(message) + 100))
     opts = [(b"message_format", fmt), (b"datasource_message_max_length", str(min(1048575, max(255, len(message)))).encode()),
             (b"log_message_max_length", str(L).encode())]
@@ -132,15 +135,20 @@ def evaluate(env, c):
             ops.append(drv.op("S", fd, c["stdio"]))
     ops += [drv.op("K", "devlog", out + "/devlog.sock", 1), drv.op("K", "sock", out + "/sock"),
             drv.op("W", "log", out + "/log"), drv.op("W", "logtpl", out + "/log-x-1"),
-            drv.op("C", p["ini"]), drv.op_env(p["environ"]), drv.op("Q"),
-            drv.op_exec("e", path, p["argv"], [b"E=1"], ret=-1, err=13, real=c["real"]), drv.op("G")]
+            drv.op("C", p["ini"]), drv.op_env(p["environ"]), drv.op("Q")]
+    k = c.get("repeat", 1)
+    # the same exec k times in one process (a program walking its PATH): k records are due
+    for i in range(k):
+        ops.append(drv.op_exec("e" if i % 2 == 0 else "v", path, p["argv"], [b"E=1"], ret=-1, err=13,
+                               real=c["real"] and i == k - 1))
+    ops.append(drv.op("G"))
     res = d.scenario(ops)
     reports = d.sanitizer_reports()
     if res.timedout or res.signaled or res.exitcode != 0:
         raise Failure("wrapped call crashed or hung", {"result": res.describe(), "sanitizer": [r[:2000] for r in reports[:1]]}, key="crash")
     R = res.of("R")
-    if len(R) != 1:
-        raise Failure("real exec reached %d times" % len(R), {"result": res.describe()}, key="count")
+    if len(R) != k:
+        raise Failure("real exec reached %d times for %d calls" % (len(R), k), {"result": res.describe()}, key="count")
     pid = int(res.of("Q")[0].f[2].split()[0])
     G = res.of("G")
     entry_dump = None
@@ -167,7 +175,7 @@ def evaluate(env, c):
                     final[name] = (typ, fd, None)
     else:
         final = drv.parse_dump(G[-1])
-    at_entry = drv.parse_sinkstate(R[0].f[3])
+    at_entry = drv.parse_sinkstate(R[-1].f[3])
 
     def size_of(v):
         typ, fd, content = v
@@ -187,19 +195,19 @@ def evaluate(env, c):
         expect[name] = [] if typ == 3 else (b"" if (typ != 2 or name.startswith("fd")) else None)
     if logged and sink:
         if sink in ("sock",):
-            expect[sink] = [msg]
+            expect[sink] = [msg] * k
         elif sink == "devlog":
             fac = gen.FACILITY_NUM[c["fac"] or "AUTHPRIV"]
             lvl = gen.LEVEL_NUM[c["lvl"] or "INFO"]
-            expect[sink] = [b"<%d>%s[%d]: %s" % ((fac << 3) | lvl, p["ident"][:255], pid, msg)]
+            expect[sink] = [b"<%d>%s[%d]: %s" % ((fac << 3) | lvl, p["ident"][:255], pid, msg)] * k
         else:
-            expect[sink] = msg + b"\n"
+            expect[sink] = (msg + b"\n") * k
     observed = {name: content for name, (typ, fd, content) in final.items()}
     if c["errlog"]:
         # additional separate error records are tolerated at any sink; the real record must still be there
         if logged and sink:
             got = observed[sink]
-            ok = (expect[sink][0] in got) if isinstance(got, list) else (got is not None and expect[sink] in got)
+            ok = (got.count(expect[sink][0]) >= k) if isinstance(got, list) else (got is not None and got.count(msg + b"\n") >= k)
             if not ok:
                 raise Failure("record missing/altered at the configured sink (error_logging on)",
                               summarize(observed), summarize(expect), key="record-errlog")
@@ -234,9 +242,9 @@ def classify(c):
     logged = not dropped and c["shape"] != "empty"
     nontriv = logged and c["out"] not in ("devnull", "noop", "file-noarg") and (
         c["n"] > 1024 or binary or c["out"] == "filetpl" or nondef_syslog)
-    key = (c["out"], sizecls, c["chain"], c["stdio"], c["real"], binary) if nontriv else None
+    key = (c["out"], sizecls, c["chain"], c["stdio"], c["real"], binary, c.get("repeat", 1)) if nontriv else None
     cls = ["out:" + c["out"], "size:" + sizecls, "chain:" + c["chain"], "stdio:" + c["stdio"],
-           "real" if c["real"] else "scripted"]
+           "real" if c["real"] else "scripted", "repeat:%d" % c.get("repeat", 1)]
     if c["errlog"]:
         cls.append("error_logging")
     if binary:
